@@ -73,6 +73,18 @@ def init_toplevel_query(
     ctx.pending_query = ctx.rel
 
 
+def _path_sort_key(path_id: irast.PathId) -> str:
+    # A stable, process-independent ordering key for path ids (PathId
+    # hashes depend on the process, so sets of them iterate differently).
+    return path_id.pformat_internal(debug=True)
+
+
+def _path_aspect_sort_key(
+    item: Tuple[irast.PathId, object],
+) -> Tuple[str, str]:
+    return (_path_sort_key(item[0]), str(item[1]))
+
+
 def _pull_path_namespace(
         *, target: pgast.Query, source: pgast.PathRangeVar,
         flavor: str='normal',
@@ -109,7 +121,8 @@ def _pull_path_namespace(
 
         view_path_id_map = getattr(source_q, 'view_path_id_map', {})
 
-        for path_id, aspect in s_paths:
+        # s_paths is a set: iterate it in a process-independent order
+        for path_id, aspect in sorted(s_paths, key=_path_aspect_sort_key):
             orig_path_id = path_id
             if flavor != 'packed':
                 path_id = pathctx.reverse_map_path_id(
@@ -1423,7 +1436,10 @@ def _plain_join(
 ) -> None:
     condition = None
 
-    for path_id, iterator_var in right_rvar.query.path_bonds:
+    # path_bonds is a set: iterate it in a process-independent order
+    for path_id, iterator_var in sorted(
+        right_rvar.query.path_bonds, key=_path_aspect_sort_key
+    ):
         lref = None
         aspect = (
             pgce.PathAspect.ITERATOR
@@ -1479,7 +1495,10 @@ def _lateral_union_join(
     for component in astutils.each_query_in_set(right_rvar.subquery):
         condition = None
 
-        for path_id, iterator_var in right_rvar.query.path_bonds:
+        # path_bonds is a set: iterate it in a process-independent order
+        for path_id, iterator_var in sorted(
+            right_rvar.query.path_bonds, key=_path_aspect_sort_key
+        ):
             aspect = (
                 pgce.PathAspect.ITERATOR
                 if iterator_var else
@@ -1812,7 +1831,11 @@ def _get_typeref_descendants(
             typeref,
             *(
                 descendant
-                for descendant in irtyputils.get_typeref_descendants(typeref)
+                # get_typeref_descendants returns a set: order it by type id
+                for descendant in sorted(
+                    irtyputils.get_typeref_descendants(typeref),
+                    key=lambda t: t.id,
+                )
 
                 # XXX: Exclude sys/cfg tables from non sys/cfg inheritance CTEs.
                 # This probably isn't *really* what we want to do, but until we
@@ -2129,7 +2152,8 @@ def range_for_ptrref(
 
     set_ops = []
 
-    for component_ref in component_refs:
+    # component_refs is a set: order it by pointer name
+    for component_ref in sorted(component_refs, key=lambda p: str(p.name)):
         assert isinstance(component_ref, irast.PointerRef), \
             "expected regular PointerRef"
 
@@ -2390,8 +2414,12 @@ def _get_ptrref_descendants(
         include_descendants = False
 
         descendants: list[irast.PointerRef] = []
+        # descendants() returns a set: order it by pointer name
         descendants.extend(
-            cast(Iterable[irast.PointerRef], ptrref.descendants())
+            sorted(
+                cast(Iterable[irast.PointerRef], ptrref.descendants()),
+                key=lambda p: str(p.name),
+            )
         )
         descendants.append(ptrref)
         assert isinstance(ptrref, irast.PointerRef)
